@@ -320,6 +320,27 @@ def builtin(ex, st, fr, name, a, x, work):
         return y
     if name == '_ZSt28_Rb_tree_rebalance_for_erasePSt18_Rb_tree_node_baseRS_':
         raise Violation('unsupported', 'rb-tree erase (not modelled)', st)
+    # ---------------- std::unordered_* rehash policy (libstdc++.so): grow when the element count would exceed the bucket count
+    if name == '_ZNKSt8__detail20_Prime_rehash_policy14_M_need_rehashEmmm':
+        S.add('std::__detail::_Prime_rehash_policy::_M_need_rehash -> grow to max(2*buckets+1, elements, 13) when elements > buckets')
+        nb, ne, ni = a[1], a[2], a[3]
+        if not (isc(nb) and isc(ne) and isc(ni)): raise Violation('unsupported', 'symbolic hash table size', st)
+        if ne + ni > nb: return ('agg', [True, max(2 * nb + 1, ne + ni, 13)])
+        return ('agg', [False, 0])
+    if name == '_ZNKSt8__detail20_Prime_rehash_policy11_M_next_bktEm':
+        n = a[1]
+        if not isc(n): raise Violation('unsupported', 'symbolic bucket count', st)
+        return max(n, 13)
+    if name == '_ZSt11_Hash_bytesPKvmm':
+        S.add('std::_Hash_bytes -> FNV-1a over concrete bytes')
+        n = a[1]
+        if not isc(n): raise Violation('unsupported', 'symbolic hash length', st)
+        h = 0xcbf29ce484222325
+        for i in range(n):
+            b = ex.load_val(st, Ptr(a[0].obj, a[0].off + i), I8)
+            if not isc(b): raise Violation('unsupported', 'hash of symbolic bytes', st)
+            h = ((h ^ b) * 0x100000001b3) & ((1 << 64) - 1)
+        return h
     # ---------------- strtol / strtoll / strtoul: exact on the C string (symbolic bytes fork per shape: blanks, sign, digit count)
     if name in ('strtol', 'strtoll', 'strtoul', 'strtoull', '__isoc23_strtol', '__isoc23_strtoll', '__isoc23_strtoul'):
         S.add('strtol: exact decimal model, forks on the shape of symbolic bytes (blanks/sign/digit count)')
